@@ -565,6 +565,50 @@ def rule_none_matrix(ck):
     ck.floor("C06.R7", n, 1, "uses of the Optional constraint matrix in Interface")
 
 
+
+def rule_linear_abs(ck, rid="C06.R9"):
+    """`the linear mode is conservative`: with linear=True the quantity compared with the limits is |A| . rates - every coefficient enters
+    through its absolute value, so currents of opposite sign cannot cancel.  Decided on whatever shape the check has (per-row loops, one
+    vectorised expression): every comparison against the limits that is reachable with linear=True, specialised under linear=True,
+    must apply abs to (something built from) the constraint matrix before it meets the rates."""
+    from ..rules import gexpand, specialise
+    repo = ck.repo
+    n = 0
+    for qual, lin_name, mat_keys in (("infrastructure_constraints_feasible", None, ("constraint_matrix",)),):
+        f = repo.fn(qual)
+        fl = flow_of(f)
+        lin_p = lin_name or f.params[2]
+        limit_keys = ("constraint_limits", "magnitudes")
+        for node in fl.cfg.nodes:
+            for e in fl.cfg.node_exprs(node):
+                for c in [e] + list(walk_local(e)):
+                    if not (isinstance(c, ast.Compare) and len(c.ops) == 1 and isinstance(c.ops[0], (ast.Lt, ast.LtE, ast.Gt, ast.GtE))):
+                        continue
+                    sides = [c.left, c.comparators[0]]
+                    ex = [gexpand(fl, x, node) for x in sides]
+                    has_lim = [any(k in src(x) for k in limit_keys) for x in ex]
+                    if has_lim[0] == has_lim[1]:
+                        continue
+                    q = ex[1] if has_lim[0] else ex[0]
+                    if not any(k in src(q) for k in mat_keys):
+                        continue
+                    # reachable with linear=True?
+                    if any(dotted(a) == lin_p and t is False for a, t in facts_at(fl, node)):
+                        continue
+                    ql = specialise(q, {lin_p: True})
+                    n += 1
+                    ok = False
+                    for x in ast.walk(ql):
+                        if isinstance(x, ast.Call) and call_name(x) in ("abs", "absolute", "fabs") and x.args and any(k in src(x.args[0]) for k in mat_keys):
+                            # the abs must be on the coefficients alone, not on the product with the rates
+                            if f.params[0] not in {y.id for y in ast.walk(x.args[0]) if isinstance(y, ast.Name)}:
+                                ok = True
+                    ck.require(ok, rid, f, c, ok="linear mode: coefficients enter through their absolute value",
+                               bad=f"with linear=True the current compared with the limit is `{src(ql)[:110]}`: the coefficients are not taken in absolute value before "
+                                   "they are combined with the rates, so currents with opposite signs cancel and the linear check is no longer conservative",
+                               sink="linear-abs", positive=True)
+    ck.floor(rid, n, 1, "comparisons against the limits reachable in linear mode")
+
 def run(ck):
     ck.attempt(rule_utils)
     ck.attempt(rule_row_acceptance)
@@ -576,3 +620,4 @@ def run(ck):
     # which must be computed from the network as it is now (shared with C05)
     from .c05 import rule_stateless_view
     ck.attempt(rule_stateless_view, rid="C06.R8")
+    ck.attempt(rule_linear_abs)
